@@ -98,8 +98,12 @@ def build_universe(seed, tier):
     c = Universe(CORPUS_SEED, n_types=40, max_depth=3, n_defs=10, prefix='K').build()
     from universe import stress_defs, Adt, Seq, Array, Sum, Str, Phantom
     sd = stress_defs('K')
-    st = [Adt(d, [], []) for d in sd]
+    st = [Adt(d, [], []) for d in sd if not d.tparams]
+    byname = {d.name: d for d in sd}
     st += [Seq('vec', st[0]), Seq('vec', st[1]), Array(st[2], 2), Seq('bs', st[4]), Sum('opt', [st[5]]), Seq('vec', st[7])]
+    # the generic wrapper KD5<A> { s: String, a: A, t: u8 } around borrowed slices of over-aligned / tag-aligned items
+    st += [Adt(byname['KD5'], [Seq('vec', Adt(byname['KZE2'], [], []))], []), Adt(byname['KD5'], [Seq('vec', Adt(byname['KZ8'], [], []))], []),
+           Adt(byname['KD5'], [Seq('bs', Adt(byname['KZ6'], [], []))], [])]
     u.corpus_start = len(u.types)
     u.corpus_rust = [t.rust() for t in c.types] + [t.rust() for t in st]
     seen = set(t.rust() for t in u.types)
